@@ -3,11 +3,28 @@ LEVEL = "model_checking"
 TECHNIQUE = "CBMC bounded symbolic execution of evdns.c name_parse / reply_parse on symbolic packets vs the RFC 1035 reference decoder ref/dns_ref.h"
 UNITS = ["evdns.c"]
 FUNCTIONS = ["name_parse", "reply_parse", "reply_handle", "reply_schedule_callback"]
-BOUNDS = ""
-OUT = ""
-TEXT = ""
-NOTE = ""
-ASSUMPTIONS = []
+FUNCTIONS += ["reply_run_callback"]
+BOUNDS = ("name_parse: every packet of <= 12 (quick) / 16 (thorough) octets for memory safety and termination, <= 8 / 9 octets for equivalence with the "
+          "reference decoder, any start index, output size 0..L+2, exact-size objects. reply_parse..reply_run_callback: every reply of <= 32 (quick) / 44 "
+          "(thorough) octets, one pending A/AAAA/PTR request with/without DNS_CNAME_CALLBACK and 0x20, QDCOUNT<=1, ANCOUNT<=2, NSCOUNT<=1, decoded names <= 3 "
+          "octets (name_parse replaced by its contract), optional solver-chosen allocation failures.")
+OUT = ("UDP/TCP framing and segmentation (nameserver_read, client_tcp_read_packet_cb); authority-section (SOA) TTL handling and NODATA classification are only "
+       "checked generically (no crash/leak/foreign data); CNAME TTL is not part of the TTL bound; put_cname_in_ptr (getaddrinfo); request life cycle below "
+       "reply_handle (request_finished, reissue, timeout, TCP retry, search) is cut to recorders (C34); replies >= 255 octets (data buffer then sized by the reply); "
+       "name_parse functional equivalence above 9 octets (SAT miter grows exponentially); pigeonhole lemma 'a finite name follows <= length/2 pointers' argued on paper.")
+TEXT = ("name_parse is decided against an RFC 1035 reference decoder (result, text, index; loops, truncation, out-of-range pointers, too-small buffers) and for "
+        "memory safety on exact-size objects; reply_parse -> reply_handle -> reply_schedule_callback -> reply_run_callback is run on a symbolic reply with name_parse "
+        "replaced by exactly that contract: foreign packets (id/QR) never touch the request, data is delivered only from matching error-free well-formed replies and "
+        "equals the answer records of the queried type (addresses in order / first PTR target, count, TTL <= min), CNAME as reported, nothing leaks, allocation "
+        "failure is survived.")
+NOTE = ("Trusted: cbmc 6.11, ref/dns_ref.h, the name_parse contract stub (states only what np_* obligations prove, plus 'decoded text <= 3 octets' as an input "
+        "bound), recorders listed in harness/C33_reply_parse.c, a 10-line model of evutil_ascii_strcasecmp. Tolerated via expect_fail: name_parse computes "
+        "`cp + label_len` past the end of name_out before comparing (C undefined behaviour, never dereferenced). Findings: C33-cname-leak, C33-unchecked-malloc, "
+        "C33-reserved-label-type (fixes/). Observation: an A record with RDLENGTH 0 yields a success callback with count 0.")
+ASSUMPTIONS = ["name_parse behaves per its contract outside the verified packet bound (the contract is proved for packets <= 16 octets, used for replies <= 44)",
+               "callbacks below reply_handle (request_finished, nameserver_up/failed, request_reissue, timeout, TCP retry) do not touch the reply object",
+               "handle->user_callback is the harness recorder (other functions of the same type are cut)",
+               "evutil_ascii_strcasecmp is ASCII case-insensitive comparison (model in the harness)"]
 DESIGN_REF = "DESIGN.md §5 C33, §3.8"
 
 PTR_UB = "pointer relation: pointer outside object bounds in cp + "
@@ -40,17 +57,20 @@ RP_INSTR = [["--replace-calls", "name_parse:c33r_name_parse_contract"],
             ["--replace-calls", "nameserver_failed:c33r_nameserver_failed"],
             ["--replace-calls", "request_reissue:c33r_request_reissue"],
             ["--replace-calls", "evdns_request_timeout_callback:c33r_timeout_cb"],
-            ["--replace-calls", "client_retransmit_through_tcp:c33r_retransmit_tcp"]]
+            ["--replace-calls", "client_retransmit_through_tcp:c33r_retransmit_tcp"],
+            ["--replace-calls", "search_try_next:c33r_search_try_next"],
+            # the only other functions of evdns_callback_type (cbmc resolves handle->user_callback by signature)
+            ["--remove-function-body", "evdns_getaddrinfo", "--remove-function-body", "evdns_getaddrinfo_gotresolve", "--remove-function-body", "nameserver_probe_callback"]]
 
-def rp_ob(name, L, T=3, extra=(), **kw):
-    Q = (L - 12) // 5 + 2; R = (L - 12) // 11 + 2
+def rp_ob(name, L, T=3, qd=1, an=2, ns=1, extra=(), **kw):
+    Q = qd + 1; R = an + 1
     d = dict(name=name, harness="C33_reply_parse.c", entry="harness_reply_parse",
-             defines=["C33R_L=%d" % L, "C33R_TEXT=%d" % T] + list(extra), instrument=RP_INSTR, unwind=2,
-             unwindset=["reply_parse.9:%d" % Q, "reply_parse.15:%d" % R, "reply_parse.28:%d" % R, "c33r_ref.0:%d" % Q, "c33r_ref.1:%d" % (L + 1), "c33r_ref.2:%d" % R,
+             defines=["C33R_L=%d" % L, "C33R_TEXT=%d" % T, "C33R_QD=%d" % qd, "C33R_AN=%d" % an, "C33R_NS=%d" % ns] + list(extra), instrument=RP_INSTR, unwind=2,
+             unwindset=["reply_parse.9:%d" % Q, "reply_parse.15:%d" % R, "reply_parse.28:%d" % (ns + 1), "c33r_ref.0:%d" % Q, "c33r_ref.1:%d" % (L + 1), "c33r_ref.2:%d" % R,
                         "c33r_texteq.0:%d" % (T + 2), "event_mm_strdup_.0:%d" % (T + 2), "c33r_name_parse_contract.0:%d" % (T + 1),
                         "c33r_user_cb.0:%d" % (T + 2), "c33r_user_cb.1:%d" % (L + 8), "c33r_user_cb.2:%d" % (4 * L + 20), "c33r_user_cb.3:%d" % (T + 2),
                         "harness_reply_parse.0:%d" % (T + 2), "harness_reply_parse.1:%d" % (L + 1), "harness_reply_parse.2:%d" % (T + 2),
-                        "vp_bytes.0:%d" % (L + 1), "vp_memcpy.0:%d" % (L + 2), "strcmp.0:%d" % (T + 2), "strlen.0:%d" % (T + 2)],
+                        "vp_bytes.0:%d" % (L + 1), "vp_memcpy.0:%d" % (L + 2), "strcmp.0:%d" % (T + 2), "strlen.0:%d" % (T + 2), "evutil_ascii_strcasecmp.0:%d" % (T + 2)],
              timeout=900, mem_gb=8, cbmc=["--object-bits", "10"], native=False,
              desc="reply_parse..reply_run_callback on every reply <= %d bytes for one pending A/AAAA/PTR request, name_parse by contract (names <= %d bytes)" % (L, T))
     d.update(kw); return d
@@ -58,8 +78,14 @@ def rp_ob(name, L, T=3, extra=(), **kw):
 def obligations(tier):
     if tier == "quick":
         obs = [np_ob("np_safe_front_L12", 12, "safe"), np_ob("np_safe_tail_L8", 8, "safe", front=False),
-               np_ob("np_func_L8", 8, "func"), rp_ob("reply_L32", 32)]
+               np_ob("np_func_L8", 8, "func"), rp_ob("reply_wf_L32", 32, extra=["C33R_KF_EXCLUDE_CNAME_LEAK"]), rp_ob("reply_L32", 32),
+               rp_ob("reply_allocfail_L32", 32, extra=["C33R_ALLOC_FAIL"])]
     else:
-        obs = [np_ob("np_safe_front_L16", 16, "safe"), np_ob("np_safe_tail_L12", 12, "safe", front=False),
-               np_ob("np_func_L9", 9, "func")]
+        strict = np_ob("np_reserved_L8", 8, "func")
+        strict["defines"] = strict["defines"] + ["C33_STRICT_LABELTYPE"]
+        strict["desc"] = "as np_func_L8, and names containing a reserved label type (01/10) must be rejected (finding C33-reserved-label-type)"
+        obs = [np_ob("np_safe_front_L16", 16, "safe", timeout=1800), np_ob("np_safe_tail_L12", 12, "safe", front=False, timeout=1800),
+               np_ob("np_func_L9", 9, "func", timeout=1800), strict,
+               rp_ob("reply_wf_L44", 44, extra=["C33R_KF_EXCLUDE_CNAME_LEAK"], timeout=2400, mem_gb=12), rp_ob("reply_L44", 44, timeout=2400, mem_gb=12),
+               rp_ob("reply_allocfail_L32", 32, extra=["C33R_ALLOC_FAIL"])]
     return obs
